@@ -41,6 +41,7 @@ import (
 	"go/ast"
 	"go/parser"
 	"go/token"
+	"hash/fnv"
 	"os"
 	"path/filepath"
 	"sort"
@@ -642,7 +643,7 @@ func c03ScratchRoot(t *testing.T) string {
 func TestVerif_C03(t *testing.T) {
 	r := kit.Start(t, "C03", "crash")
 	defer r.Finish()
-	depth := r.Pick(3, 4)
+	depth := r.Pick(3, 5)
 	if n, err := strconv.Atoi(os.Getenv("C03_DEPTH")); err == nil && n > 0 {
 		depth = n // debugging aid
 	}
@@ -686,7 +687,18 @@ func TestVerif_C03(t *testing.T) {
 		}
 		return strings.IndexByte("RSWw", h[len(h)-1])
 	}
-	sort.SliceStable(order, func(a, b int) bool { return cost(hs[order[a]]) < cost(hs[order[b]]) })
+	mix := func(h string) uint32 { // decorrelates the deal from the period-4 structure of the enumeration
+		f := fnv.New32a()
+		f.Write([]byte(h))
+		return f.Sum32()
+	}
+	sort.SliceStable(order, func(a, b int) bool {
+		ha, hb := hs[order[a]], hs[order[b]]
+		if cost(ha) != cost(hb) {
+			return cost(ha) < cost(hb)
+		}
+		return mix(ha) < mix(hb)
+	})
 	shardOf := make([]int, len(hs))
 	for pos, i := range order {
 		shardOf[i] = pos % nshards
@@ -785,9 +797,17 @@ func TestVerif_C03(t *testing.T) {
 		ls = append(ls, l)
 	}
 	sort.Strings(ls)
-	r.Add("crash_labels_this_shard", int64(len(ls)))
+	perFile := map[string]int{}
+	for _, l := range ls {
+		if i := strings.LastIndex(l, ":"); i > 0 {
+			perFile[l[:i]]++
+		} else {
+			perFile["(harness)"]++
+		}
+	}
+	r.Set(fmt.Sprintf("distinct_crash_labels_per_file_shard%d", shard), perFile)
 	if shard == 0 {
 		r.Set("labels_shard0", strings.Join(ls, " "))
 	}
-	r.Note("histories of length <=%d; each shard reports its own histories, points, images (counters add up over shards)", depth)
+	r.Note("histories of length <=%d; each shard reports its own histories, points and images (the counters add up over shards). The number of images can differ by a few between runs: an image is taken whenever the directory content differs from the previous image, and raft's own goroutines (log appends, election at start-up, the background reaper) change raft.db and the snapshot store between rqlite's steps at slightly different moments. The classes of states and the verdict do not depend on it.", depth)
 }
